@@ -467,8 +467,8 @@ func c19Run(in c19Input) (*c19Net, string) {
 		time.Sleep(5 * time.Millisecond)
 		now := time.Now()
 		if in.Mode == "sync" {
-			if minHeight() >= target && allIncluded() {
-				break
+			if mh := minHeight(); mh >= target && (allIncluded() || mh >= target+uint32(in.N)+2) {
+				break // every validator has been primary since: whatever is still pending was left out
 			}
 		} else if minHeight() >= target {
 			break
